@@ -44,11 +44,17 @@ def t_falsy(*a, **k):
     return [0, '', [], {}][k.get('uid', 0) % 4]
 
 
+def t_raise_on(*a, **k):
+    if k.get('boom'):
+        raise ValueError('target raises', k.get('uid'))
+    return ['ok', k.get('uid')]
+
+
 def t_large(*a, **k):
     return ['large', k.get('uid'), 'x' * 70000]
 
 
-TARGETS = {'echo': t_echo, 'mutate': t_mutate, 'none': t_none, 'falsy': t_falsy, 'large': t_large}
+TARGETS = {'echo': t_echo, 'mutate': t_mutate, 'none': t_none, 'falsy': t_falsy, 'large': t_large, 'raise_on': t_raise_on}
 
 
 def model_value(tname, defaults, default_kw, extra, extra_kw):
@@ -322,6 +328,30 @@ def run(tier):
         chk.count('target_' + sp['target'])
         chk.count('tuple_defaults' if sp['tuple_defaults'] else 'list_defaults')
         judge(chk, sp, res)
+    djobs = [dict(cls=cls, how=how, ok_before=k) for cls in CLASSES for how in (('raise',) if 'Thread' in cls else ('raise', 'kill')) for k in ((0, 2) if not thorough else (0, 1, 3))]
+
+    def done(ij):
+        i, sp = ij
+        res = run_case('checks.c05:death_case', sp, os.path.join(wd, 'd%d' % i), timeout=180)
+        cleanup(res['dir'])
+        return sp, res
+
+    for sp, res in pmap(done, list(enumerate(djobs)), 8):
+        ev = [e for e in res['events'] if e.get('ev') == 'death']
+        chk.case(('death', sp['cls'], sp['how'], sp['ok_before']))
+        chk.count('unobserved_death_cases')
+        if not ev:
+            chk.inconclusive('death case incomplete', {'spec': sp, 'stderr': res['stderr'][-400:]})
+            continue
+        e = ev[0]
+        probs = []
+        if e['outcome'] != 'raised:WorkerClosedError':
+            probs.append('enqueue-after-unobserved-death-%s' % e['outcome'])
+        if sp['how'] == 'raise' and e['delivered'] != sp['ok_before']:
+            probs.append('delivered-%s-results-for-%d-answered-inputs' % (e['delivered'], sp['ok_before']))
+        if probs:
+            chk.violation('%s:%s:died-by-%s' % (probs[0].split(':')[0] if probs[0].startswith('delivered') else probs[0], kind_of(sp['cls']), sp['how']),
+                          '%s died by %s after %d answered inputs, nobody looked at it: %s' % (sp['cls'], sp['how'], sp['ok_before'], ', '.join(probs)), {'spec': sp, 'event': e})
     cleanup(wd)
     chk.assumptions = ['the documented precondition of wait() is respected: large results are consumed before a blocking wait()',
                        'values are compared after normalising tuples to lists (JSON transport of the log)']
@@ -332,3 +362,56 @@ def replay(spec):
     import json
     print(json.dumps(spec, indent=1)[:5000])
     return 0
+
+
+def death_case(spec, log):
+    """The worker dies on its own (target raises / child killed); the parent does NOT look at it through
+    the API before it enqueues again: that enqueue must be refused with WorkerClosedError."""
+    import logging
+    import signal
+    import time
+    logging.disable(logging.CRITICAL)
+    from vlib.case import Bounded, HANG, Raised
+    from vlib.common import pid_running
+    from vlib.wcase import get_class
+    import checks.c05 as me
+    from pyworkers.persistent import WorkerClosedError
+    bounded = Bounded(log)
+    cls, _ = get_class(spec['cls'])
+    server = None
+    kw = {}
+    if 'Remote' in spec['cls']:
+        from pyworkers.remote_server import spawn_server
+        server = spawn_server(('127.0.0.1', 0))
+        kw['host'] = server.addr
+    try:
+        w = cls(me.t_raise_on, **kw)
+        own = w.pid == os.getpid()
+        for i in range(spec['ok_before']):
+            w.enqueue(uid=i + 1)
+        if spec['how'] == 'raise':
+            w.enqueue(uid=99, boom=True)
+        # establish the death WITHOUT touching the public API of the worker
+        t0 = time.monotonic()
+        if own:
+            w._child.join(20)
+        else:
+            if spec['how'] == 'kill':
+                time.sleep(0.2)
+                os.kill(w.pid, signal.SIGKILL)
+            while pid_running(w.pid) and time.monotonic() - t0 < 20:
+                time.sleep(0.005)
+        time.sleep(0.4 if 'Remote' in spec['cls'] else 0.05)
+        r = bounded('enqueue_after_unobserved_death', lambda: w.enqueue(uid=100), 20)
+        outcome = 'accepted' if r is None else 'hang' if r is HANG else 'raised:' + type(r.exc).__name__
+        got = bounded('drain', lambda: list(w.results_iter()), 30)
+        n = None if got is HANG or isinstance(got, Raised) else len(got)
+        bounded('wait', lambda: w.wait(10), 30)
+        log.ev('death', outcome=outcome, delivered=n, has_error=w.has_error)
+        return {'ok': True}
+    finally:
+        if server is not None:
+            try:
+                server.terminate(timeout=1, force=True)
+            except BaseException:  # noqa
+                pass
